@@ -24,7 +24,8 @@ def run(tier):
                            'generated programs with up to 2 messages (action results, start-task requests, start requests, run-action '
                            'requests) re-delivered at random later points under 8 schedule policies and both schedulers; non-trivial = '
                            'distinct runs in which at least one duplicate was actually delivered',
-                           _nontrivial, model_runs=lambda d: c06_executor.model_and_replay(d, tier))
+                           _nontrivial, strict=True,
+                           model_runs=lambda d: c06_executor.model_and_replay(d, tier) + ec.catalogue_model_runs(d, tier, dups=2, tag='_d2'))
 
 
 def replay(path):
